@@ -194,18 +194,18 @@ def _int_guards(ctx, mod):
 def _steps(f):
     out = {}
     for n in walk_no_nested(f):
-        if isinstance(n, ast.Assign) and unparse(n.targets[0]) == "s" and "replace" in unparse(n.value):
+        if isinstance(n, ast.Assign) and eqv(n.targets[0], "s") and "replace" in unparse(n.value):
             out["strip-blanks"] = unparse(n.value)
         if isinstance(n, ast.If) and any(isinstance(x, ast.Assign) and unparse(x.value).startswith("f'1{s}'") for x in n.body):
             out["implicit-one"] = dump(n.test)
             out["implicit-one-src"] = unparse(n.test)
-        if isinstance(n, ast.For) and unparse(n.target) == "i":
+        if isinstance(n, ast.For) and eqv(n.target, "i"):
             out["scan"] = dump(n)
-        if isinstance(n, ast.Assign) and unparse(n.targets[0]) == "index":
+        if isinstance(n, ast.Assign) and eqv(n.targets[0], "index"):
             out["index"] = unparse(n.value)
-        if isinstance(n, ast.Assign) and unparse(n.targets[0]) == "prefix":
+        if isinstance(n, ast.Assign) and eqv(n.targets[0], "prefix"):
             out["prefix"] = unparse(n.value)
-        if isinstance(n, ast.Assign) and unparse(n.targets[0]) == "n" and "float" in unparse(n.value):
+        if isinstance(n, ast.Assign) and eqv(n.targets[0], "n") and "float" in unparse(n.value):
             out["number"] = unparse(n.value)
     return out
 
